@@ -109,7 +109,26 @@ func alternatives(v ssa.Value, atom func(ssa.Value) string, depth int) []linform
 	case *ssa.Convert:
 		return alternatives(x.X, atom, depth)
 	}
-	return []linform{linear(v, atom, 0)}
+	return []linform{atomForm(v, atom)}
+}
+
+// atomForm: the linear form of a leaf - single-assignment locals and captured variables are looked
+// through ("chunksNum := len(idx.Chunks)", also when a closure captures it); loop counters keep
+// their identity.
+func atomForm(v ssa.Value, atom func(ssa.Value) string) linform {
+	if p, ok := v.(*ssa.Phi); ok && isLoopPhi(p) {
+		return linform{atoms: map[string]int{atom(v): 1}, ok: true}
+	}
+	lf := linearB(v, 0)
+	// rename the atoms of interest
+	out := linform{atoms: map[string]int{}, k: lf.k, ok: lf.ok}
+	for a, n := range lf.atoms {
+		if a == "len(Index.Chunks)" {
+			a = "len(chunks)"
+		}
+		out.atoms[a] += n
+	}
+	return out
 }
 
 // isLoopPhi: one of the phi's operands depends on the phi itself (a loop-carried variable).
@@ -153,7 +172,7 @@ func c17Batches(c *Ctx) {
 	}
 	// the slice that is sent to the workers
 	var sl *ssa.Slice
-	instrs(fn, func(_ *ssa.BasicBlock, _ int, ins ssa.Instruction) {
+	instrsAll(fn, func(_ *ssa.BasicBlock, _ int, ins ssa.Instruction) {
 		sel, ok := ins.(*ssa.Select)
 		if !ok {
 			return
@@ -229,10 +248,10 @@ func c17Batches(c *Ctx) {
 	condOK := false
 	if iff := lastIf(hdr); iff != nil {
 		cm, truth, ok := cmpOf(iff.Cond)
-		if ok && truth && cm.op == token.LSS && cm.x == ssa.Value(iPhi) && linear(cm.y, atom, 0).equal(lenForm) {
+		if ok && truth && cm.op == token.LSS && cm.x == ssa.Value(iPhi) && atomForm(cm.y, atom).equal(lenForm) {
 			condOK = true
 		}
-		if ok && truth && cm.op == token.GTR && cm.y == ssa.Value(iPhi) && linear(cm.x, atom, 0).equal(lenForm) {
+		if ok && truth && cm.op == token.GTR && cm.y == ssa.Value(iPhi) && atomForm(cm.x, atom).equal(lenForm) {
 			condOK = true
 		}
 	}
